@@ -57,6 +57,7 @@ Next ==
     \/ \E f \in Bools : PrepPush(f)
     \/ PrepCommit
     \/ PrepDrop("return")
+    \/ \E id \in LiveIds, at \in {1, 8, 16} : Split(id, at)
 
 Spec == Init /\ [][Next]_vars
 
@@ -69,10 +70,11 @@ SimStep ==
     \/ Alloc(R(Layouts), FALSE, FALSE)
     \/ (LiveIds # {} /\ Dealloc(R(LiveIds), R(Wraps)))
     \/ (LiveIds # {} /\ Dealloc(R(LiveIds), "none"))
-    \/ (LiveIds # {} /\ LET id == R(LiveIds) IN
-            LET ls == {l \in Layouts : l.sz >= blocks[id].sz} IN ls # {} /\ Grow(id, R(ls), R(Bools), R(Wraps), FALSE))
-    \/ (LiveIds # {} /\ LET id == R(LiveIds) IN
-            LET ls == {l \in Layouts : l.sz <= blocks[id].sz} IN ls # {} /\ Shrink(id, R(ls), R(Wraps), FALSE))
+    \* (RandomElement is re-evaluated at every use of a LET definition: bind the drawn values with \E x \in {R(S)})
+    \/ (LiveIds # {} /\ \E id \in {R(LiveIds)} :
+            LET ls == {l \in Layouts : l.sz >= blocks[id].sz} IN ls # {} /\ \E l \in {R(ls)} : Grow(id, l, R(Bools), R(Wraps), FALSE))
+    \/ (LiveIds # {} /\ \E id \in {R(LiveIds)} :
+            LET ls == {l \in Layouts : l.sz <= blocks[id].sz} IN ls # {} /\ \E l \in {R(ls)} : Shrink(id, l, R(Wraps), FALSE))
     \/ Reserve(R({1, 50, 600, 3000}), FALSE)
     \/ EnterFrame(R({"scope", "guard"}))
     \/ ExitScope(R({"return", "unwind"}))
@@ -97,16 +99,18 @@ SimStep ==
     \/ (CanFail /\ PrepPush(TRUE))
     \/ PrepCommit
     \/ PrepDrop(R({"return", "unwind"}))
+    \/ (LiveIds # {} /\ \E id \in {R(LiveIds)} :
+            LET ats == {a \in 1..(blocks[id].sz - 1) : a % blocks[id].al = 0} IN ats # {} /\ \E at \in {R(ats)} : Split(id, at))
     \/ (CanFail /\ Alloc(R(Layouts), FALSE, TRUE))
     \/ (CanFail /\ Reserve(R({600, 3000}), TRUE))
-    \/ (CanFail /\ LiveIds # {} /\ LET id == R(LiveIds) IN
-            LET ls == {l \in Layouts : l.sz >= blocks[id].sz} IN ls # {} /\ Grow(id, R(ls), FALSE, "none", TRUE))
+    \/ (CanFail /\ LiveIds # {} /\ \E id \in {R(LiveIds)} :
+            LET ls == {l \in Layouts : l.sz >= blocks[id].sz} IN ls # {} /\ \E l \in {R(ls)} : Grow(id, l, FALSE, "none", TRUE))
 
 Finish ==
     /\ nops >= 0 /\ (nops >= MaxOps \/ dropped)
     /\ PrintT(<<"REPLAY", ToJson([cfg |-> cfg, steps |-> hist])>>)
     /\ nops' = 0 - 1
-    /\ UNCHANGED <<cfg, base, chunks, cur, ma, frames, blocks, cps, nextId, order, last, fails, dropped, hist>>
+    /\ UNCHANGED <<cfg, base, chunks, cur, ma, frames, blocks, cps, nextId, order, parts, last, fails, dropped, hist>>
 
 SimNext == (nops >= 0 /\ nops < MaxOps /\ ~dropped /\ SimStep) \/ Finish
 SimSpec == Init /\ [][SimNext]_vars
